@@ -2,6 +2,7 @@ package action
 
 import (
 	"encoding/json"
+	"math/big"
 
 	"github.com/Oneledger/protocol/data/balance"
 	"github.com/Oneledger/protocol/data/keys"
@@ -72,8 +73,9 @@ func (a Amount) ToCoinWithBase(list *balance.CurrencySet) balance.Coin {
 		return balance.Coin{}
 	}
 
-	// parse float string
-	return currency.NewCoinFromInt(a.Value.BigInt().Int64())
+	// whole units times the currency base, without leaving arbitrary precision
+	scaled := new(big.Int).Mul(a.Value.BigInt(), currency.Base())
+	return currency.NewCoinFromAmount(*balance.NewAmountFromBigInt(scaled))
 }
 
 type Response struct {
